@@ -366,6 +366,15 @@ def symbol_table_check(ctx, rule, key, oracle_map, enum_adt, enum_map):
     rep.ob(rule, "domain", covered == 0x110000 - 0x800, "cells cover %d of 1114112 scalar values" % covered)
     rep.ob(rule, "accepted-count", accepted == len(oracle_map), "%d code points accepted, the documented symbol set has %d" % (accepted, len(oracle_map)), pdb.where(key))
     rep.sample({"rule": rule, "cells": len(cells), "accepted": accepted})
+    if ctx.tier == "thorough":
+        # point-wise cross-check of the cell/interval method over every scalar value
+        bad = 0
+        for cp in list(range(0, 0xD800)) + list(range(0xE000, 0x110000)):
+            got = enum_name(pdb, ctx.fold(dag, {"ch": cp}))
+            exp = inv.get(oracle_map.get(chr(cp)), "BLANK") if chr(cp) in oracle_map else "BLANK"
+            if got != exp:
+                bad += 1
+        rep.ob(rule + ".pointwise", "1112064 scalar values", bad == 0, "%d scalar values map to the wrong symbol in the point-wise cross-check" % bad, pdb.where(key))
     return dag
 
 
@@ -639,6 +648,24 @@ def check_peel(ctx, rule):
         rep.ob(rule, "state/%d" % k, o == exp_o, "peel when %s: the set afterwards is not the set %s" % (what, "minus that card" if k < 52 else "unchanged"), pdb.where(key))
         n += 1
     rep.floor(rule, n, 53)
+    if ctx.tier == "thorough":
+        import random
+        rnd = random.Random(ctx.rep.seed + 17)
+        sets = [0, (1 << 52) - 1, (1 << 64) - 1, 0xFFF << 52, 0x5555555555555, 0xAAAAAAAAAAAAA | (1 << 60)] + [rnd.getrandbits(64) for _ in range(40)] + [rnd.getrandbits(64) & rnd.getrandbits(64) for _ in range(20)]
+        bad_seq = 0
+        for s0 in sets:
+            cur = s0
+            listed = []
+            for _ in range(54):
+                r_ = cval(ctx.fold(ret, {"s": cur}))
+                cur = cval(ctx.fold(out, {"s": cur}))
+                if r_ == 0:
+                    break
+                listed.append(r_)
+            members = [1 << b for b in range(51, -1, -1) if s0 >> b & 1]
+            if listed != members or cur != (s0 & ~((1 << 52) - 1)):
+                bad_seq += 1
+        rep.ob(rule + ".exhaustion", "%d sets peeled to exhaustion" % len(sets), bad_seq == 0, "%d sets are not listed in deck order followed by blank (or the non-card bits change)" % bad_seq, pdb.where(key))
     if folded_cases:
         rep.note("%s: %d of 53 abstract cases were decided by folding over structured sets because the code does arithmetic on the set (per-bit abstraction imprecise)" % (rule, len(folded_cases)))
         rep.extra["exhaustive"] = False
@@ -836,6 +863,20 @@ def check_C16(ctx):
             if got != exp:
                 nb += 1
                 bad = bad or (val, got, exp)
+        if ctx.tier == "thorough":
+            import random
+            rnd = random.Random(rep.seed)
+            for pc_ in range(0, 65):
+                for _ in range(40):
+                    val = sum(1 << b for b in rnd.sample(range(64), pc_))
+                    if bin(val).count("1") == 2:
+                        continue
+                    got = result(val)
+                    exp = ("Err", "NotEnoughCards") if pc_ < 2 else ("Err", "TooManyCards")
+                    cnt += 1
+                    if got != exp:
+                        nb += 1
+                        bad = bad or (val, got, exp)
         rep.ob("C16.other-counts", "%d structured sets" % cnt, nb == 0, "Two::try_from(%#x) = %s, expected %s" % (bad or (0, 0, 0)), pdb.where(key))
         # the count decision as a table over the population count alone
         nn = atom("n", "u32")
